@@ -1,0 +1,9 @@
+//! Verification hook H5 (compiled only with `--cfg salsa_rs_salsa_verif`).
+//!
+//! Public accessors for the interned-ingredient linearisation trace and the shard
+//! function.  The records themselves are produced in `src/interned.rs`, under the shard
+//! lock, one per `intern_id` / `maybe_changed_after`.
+
+pub use crate::interned::verif_hook::{
+    verif_hash_of, verif_shard_count, verif_shard_of_hash, verif_take_intern_trace,
+};
